@@ -8,7 +8,7 @@ EXPL = " Exploration only: generated-input search establishes nothing beyond the
 CHECKS = {
  "C01": C("property-based differential testing: AST-generated range texts x boundary probes against an independent npm-desugaring model (golden-validated against node-semver), exhaustive single-token table, libFuzzer target in the thorough tier",
    "Generated range texts (grammar AST rendered with all loose spellings) and an exhaustive 3060-token table are compared pointwise, at ~40 boundary probes per comparator version, with an oracle that implements npm's documented desugaring on the AST; the oracle itself is first replayed against 410k frozen node-semver 7.6.2 answers." + EXPL,
-   "trusts the npm model (model/npm.rs, validated against golden/npm_range.jsonl) and the probe construction; four known findings (wildcards under operators, lower-less hyphen, empty alternative, '<N' without -0) are excluded by construction / by signature and reported as KNOWN-FINDING", "6/C01"),
+   "trusts the npm model (model/npm.rs, validated against golden/npm_range.jsonl) and the probe construction; two open findings (wildcards under operators, '<N' without -0) are excluded by construction / by signature and reported as KNOWN-FINDING", "6/C01"),
  "C02": C("metamorphic property-based testing (crate vs crate): `a || b` vs a, b and `a b` vs a, b at boundary probes; permutations of tokens and alternatives",
    "Pairs of parseable range texts are joined by `||` and by blanks; the joined range must answer exactly as the union / (bounds-)intersection law of the statement prescribes at every probe, an empty conjunction must not widen, and every permutation answers identically." + EXPL,
    "in-bounds membership of the operands is read from their printed interval form; sides that do not parse alone are discarded (counted)", "6/C02"),
